@@ -301,4 +301,29 @@ def _resubmission_faults(ctx):
     ctx.extra["resubmission_fault_points"] = total
 
 
-install(globals(), props=("C06",), cases=cases, nontrivial=nontrivial, classes=classes, extra_monitors=(mon_c06,), stages=(_enumerate, _window_stage, _resubmission_faults, _sweep_stage))
+def _resubmission_race(ctx):
+    """The timer thread's refresh call fails WHILE the done-callback of the last parking branch is deciding to suspend:
+    one long (0.35 virtual s) preemption at every executed line of executor.py, for each failing call from the third one
+    on, over programs whose second branch parks shortly before the first branch's timer is due. The preempted callback
+    has read 'every branch is parked'; meanwhile the timer fires, the refresh call fails, and both outcomes (failure,
+    suspension) are published - the failure must win (no PENDING after a failed checkpoint call)."""
+    from .c03 import _S
+
+    tol = {"completion": {"min": None, "tol": 3, "pct": None}}
+    n = 0
+    combos = [(sl, api) for sl in (0.8, 0.9) for api in (2, 3, 4)]
+    for i, (sl, api) in enumerate(combos):
+        if ctx.nshards > 1 and i % ctx.nshards != ctx.shard % ctx.nshards:
+            continue
+        body = [{"op": "parallel", "branches": [[{"op": "wait", "secs": 1}, _S(1)], [_S(2, sleep=sl), {"op": "wait", "secs": 1}, _S(3)]], "cfg": tol}]
+        cls = ("server5xx", "client4xx", "throttle")[i % 3] if "throttle" in FAULT_CLASSES else ("server5xx", "client4xx")[i % 2]
+        base = {"prog": {"body": body}, "backend": {"response": "delta"},
+                "plan": {"crashes": [], "faults": [{"inv": 0, "api": api, "class": cls, "when": "before"}]}, "line": ["executor"], "max_raises": 1}
+        r, _ = WC.line_preempt_sweep(ctx, base, PROPS, nontrivial=nontrivial, classes=lambda r, c: ["resubmission-failure-races-suspend-decision"] + classes(r, c),
+                                     extra_monitors=(mon_c06,), limit=ctx.budget.get("race_limit", 260), stall=0.35,
+                                     label=f"0.35 s preemption per line of executor.py: parallel{{wait 1; step | step(sleep {sl}); wait 1; step}}, call #{api} fails ({cls})")
+        n += r
+    ctx.extra["resubmission_race_runs"] = n
+
+
+install(globals(), props=("C06",), cases=cases, nontrivial=nontrivial, classes=classes, extra_monitors=(mon_c06,), stages=(_enumerate, _window_stage, _resubmission_faults, _resubmission_race, _sweep_stage))
